@@ -260,11 +260,17 @@ pub enum Step {
     CombineValues(Comb), CombineValuesLifted(Comb),
     CombineGlobally(Comb, Option<usize>), CombineGloballyLifted(Comb, Option<usize>),
     Distinct, DistinctPerKey, TopKPerKey(usize),
+    /// `map_with_side` / `filter_with_side` over a side vector of ints
+    MapSide(Vec<i64>), FilterSide(Vec<i64>),
+    /// `try_map` to `Result<V, String>` and the map back to a plain value
+    TryMap, Unresult,
+    /// debug taps (identity)
+    DebugInspect, DebugCount, DebugSample(usize),
     Join(JoinKind, Box<Prog>),
 }
 
 #[derive(Clone, Copy, Debug, PartialEq, Eq)]
-pub enum Shape { T, KV, KG }
+pub enum Shape { T, KV, KG, R }
 
 #[derive(Clone, Debug)]
 pub struct Prog {
@@ -273,6 +279,9 @@ pub struct Prog {
     pub steps: Vec<Step>,
 }
 
+fn ints_enc(v: &[i64]) -> String { if v.is_empty() { "-".into() } else { v.iter().map(|x| x.to_string()).collect::<Vec<_>>().join(",") } }
+pub fn try_f(x: &V) -> Result<V, String> { if x.to_int().rem_euclid(2) == 0 { Ok(x.clone()) } else { Err("odd".to_string()) } }
+pub fn result_v(r: &Result<V, String>) -> V { match r { Ok(v) => V::pair(V::S("ok".into()), v.clone()), Err(e) => V::pair(V::S("err".into()), V::S(e.clone())) } }
 fn fo_enc(fo: &Option<usize>) -> String { fo.map_or("none".into(), |n| n.to_string()) }
 
 impl Step {
@@ -295,6 +304,11 @@ impl Step {
             Step::CombineGloballyLifted(c, fo) => format!("combine_globally_lifted {} {}", c.enc(), fo_enc(fo)),
             Step::Distinct => "distinct".into(), Step::DistinctPerKey => "distinct_per_key".into(),
             Step::TopKPerKey(k) => format!("top_k_per_key {k}"),
+            Step::MapSide(side) => format!("map_side {}", ints_enc(side)),
+            Step::FilterSide(side) => format!("filter_side {}", ints_enc(side)),
+            Step::TryMap => "try_map".into(), Step::Unresult => "unresult".into(),
+            Step::DebugInspect => "debug_inspect".into(), Step::DebugCount => "debug_count".into(),
+            Step::DebugSample(n) => format!("debug_sample {n}"),
             Step::Join(k, right) => format!("join {} [ {}{} ]", k.enc(), V::L(right.src.clone()).enc(), steps_enc(&right.steps)),
         }
     }
@@ -312,6 +326,8 @@ impl Step {
             Step::CombineValuesLifted(_) => "combine_values_lifted", Step::CombineGlobally(..) => "combine_globally",
             Step::CombineGloballyLifted(..) => "combine_globally_lifted", Step::Distinct => "distinct",
             Step::DistinctPerKey => "distinct_per_key", Step::TopKPerKey(_) => "top_k_per_key", Step::Join(..) => "join",
+            Step::MapSide(_) => "map_with_side", Step::FilterSide(_) => "filter_with_side", Step::TryMap => "try_map", Step::Unresult => "unresult",
+            Step::DebugInspect => "debug_inspect", Step::DebugCount => "debug_count", Step::DebugSample(_) => "debug_sample",
         }
     }
 }
@@ -331,6 +347,7 @@ impl Prog {
 /* ---------------------------------------------------------------- the real pipeline */
 
 pub enum Coll {
+    R(PCollection<Result<V, String>>),
     T(PCollection<V>),
     KV(PCollection<(V, V)>),
     KG(PCollection<(V, Vec<V>)>),
@@ -348,6 +365,7 @@ pub fn source(p: &Pipeline, shape: Shape, rows: &[V]) -> Coll {
         Shape::T => Coll::T(from_vec(p, rows.to_vec())),
         Shape::KV => Coll::KV(from_vec(p, rows.iter().map(kv_of).collect::<Vec<_>>())),
         Shape::KG => Coll::KG(from_vec(p, rows.iter().map(kg_of).collect::<Vec<_>>())),
+        Shape::R => panic!("harness: no source of shape R"),
     }
 }
 
@@ -359,8 +377,8 @@ fn as_kg(c: Coll) -> PCollection<(V, Vec<V>)> { match c { Coll::KG(x) => x, _ =>
 pub fn shape_after(sh: Shape, s: &Step) -> Option<Shape> {
     use Shape::*;
     Some(match (s, sh) {
-        (Step::Map(_), _) | (Step::FlatMap(_), _) => T,
-        (Step::Filter(_), sh) => sh,
+        (Step::Map(_), sh) | (Step::FlatMap(_), sh) if sh != R => T,
+        (Step::Filter(_), sh) if sh != R => sh,
         (Step::KeyBy(_), T) => KV,
         (Step::MapBatches(..), T) => T,
         (Step::MapValues(_), KV) | (Step::FilterValues(_), KV) | (Step::MapValuesBatches(..), KV) => KV,
@@ -375,6 +393,10 @@ pub fn shape_after(sh: Shape, s: &Step) -> Option<Shape> {
         (Step::DistinctPerKey, KV) => KV,
         (Step::TopKPerKey(_), KV) => KG,
         (Step::Join(..), KV) => KV,
+        (Step::MapSide(_), T) | (Step::FilterSide(_), T) => T,
+        (Step::TryMap, T) => R,
+        (Step::Unresult, R) => T,
+        (Step::DebugInspect, sh) | (Step::DebugCount, sh) | (Step::DebugSample(_), sh) if sh != R => sh,
         _ => return None,
     })
 }
@@ -388,16 +410,19 @@ pub fn apply_step(c: Coll, s: &Step) -> Coll {
             Coll::T(x) => x.map(move |v| f.eval(v)),
             Coll::KV(x) => x.map(move |r| f.eval(&row_v_kv(r))),
             Coll::KG(x) => x.map(move |r| f.eval(&row_v_kg(r))),
+            Coll::R(_) => panic!("harness: map on R"),
         }),
         Step::Filter(p) => match c {
             Coll::T(x) => Coll::T(x.filter(move |v| p.eval(v))),
             Coll::KV(x) => Coll::KV(x.filter(move |r| p.eval(&row_v_kv(r)))),
             Coll::KG(x) => Coll::KG(x.filter(move |r| p.eval(&row_v_kg(r)))),
+            Coll::R(_) => panic!("harness: filter on R"),
         },
         Step::FlatMap(f) => Coll::T(match c {
             Coll::T(x) => x.flat_map(move |v| f.eval(v)),
             Coll::KV(x) => x.flat_map(move |r| f.eval(&row_v_kv(r))),
             Coll::KG(x) => x.flat_map(move |r| f.eval(&row_v_kg(r))),
+            Coll::R(_) => panic!("harness: flat_map on R"),
         }),
         Step::KeyBy(k) => Coll::KV(as_t(c).key_by(move |v| k.eval(v))),
         Step::MapBatches(n, f) => Coll::T(as_t(c).map_batches(n, move |ch| f.eval(ch))),
@@ -468,6 +493,25 @@ pub fn apply_step(c: Coll, s: &Step) -> Coll {
         Step::Distinct => Coll::T(as_t(c).distinct()),
         Step::DistinctPerKey => Coll::KV(as_kv(c).distinct_per_key()),
         Step::TopKPerKey(k) => Coll::KG(as_kv(c).top_k_per_key(k)),
+        Step::MapSide(side) => {
+            let sv = ironbeam::side_vec(side);
+            Coll::T(as_t(c).map_with_side(&sv, |x: &V, s: &[i64]| V::I(x.to_int().wrapping_add(s.iter().fold(0i64, |a, b| a.wrapping_add(*b))))))
+        }
+        Step::FilterSide(side) => {
+            let sv = ironbeam::side_vec(side);
+            Coll::T(as_t(c).filter_with_side(&sv, |x: &V, s: &[i64]| s.contains(&x.to_int().rem_euclid(5))))
+        }
+        Step::TryMap => Coll::R(as_t(c).try_map(|x: &V| try_f(x))),
+        Step::Unresult => match c { Coll::R(x) => Coll::T(x.map(|r: &Result<V, String>| result_v(r))), _ => panic!("harness: unresult needs shape R") },
+        Step::DebugInspect => { use ironbeam::testing::PCollectionDebugExt; match c {
+            Coll::T(x) => Coll::T(x.debug_inspect_with("tap", |_| {})), Coll::KV(x) => Coll::KV(x.debug_inspect_with("tap", |_| {})),
+            Coll::KG(x) => Coll::KG(x.debug_inspect_with("tap", |_| {})), Coll::R(_) => panic!("harness: debug on R") } }
+        Step::DebugCount => { use ironbeam::testing::PCollectionDebugExt; match c {
+            Coll::T(x) => Coll::T(x.debug_count("tap")), Coll::KV(x) => Coll::KV(x.debug_count("tap")),
+            Coll::KG(x) => Coll::KG(x.debug_count("tap")), Coll::R(_) => panic!("harness: debug on R") } }
+        Step::DebugSample(n) => { use ironbeam::testing::PCollectionDebugExt; match c {
+            Coll::T(x) => Coll::T(x.debug_sample(n, "tap")), Coll::KV(x) => Coll::KV(x.debug_sample(n, "tap")),
+            Coll::KG(x) => Coll::KG(x.debug_sample(n, "tap")), Coll::R(_) => panic!("harness: debug on R") } }
         Step::Join(kind, right) => {
             let left = as_kv(c);
             let p = pipeline_of(&left);
@@ -512,6 +556,8 @@ pub fn collect(c: Coll, mode: Mode) -> anyhow::Result<Vec<V>> {
         (Coll::KV(x), Mode::Par(n)) => x.collect_par(None, Some(n))?.iter().map(row_v_kv).collect(),
         (Coll::KG(x), Mode::Seq) => x.collect_seq()?.iter().map(row_v_kg).collect(),
         (Coll::KG(x), Mode::Par(n)) => x.collect_par(None, Some(n))?.iter().map(row_v_kg).collect(),
+        (Coll::R(x), Mode::Seq) => x.collect_seq()?.iter().map(result_v).collect(),
+        (Coll::R(x), Mode::Par(n)) => x.collect_par(None, Some(n))?.iter().map(result_v).collect(),
     })
 }
 
@@ -623,6 +669,10 @@ pub fn reference(prog: &Prog) -> RefOut {
             }
             Step::Distinct => { rows.sort(); rows.dedup(); }
             Step::DistinctPerKey => { rows.sort(); rows.dedup(); }
+            Step::MapSide(side) => { let t = side.iter().fold(0i64, |a, b| a.wrapping_add(*b)); rows = rows.iter().map(|x| V::I(x.to_int().wrapping_add(t))).collect(); }
+            Step::FilterSide(side) => rows.retain(|x| side.contains(&x.to_int().rem_euclid(5))),
+            Step::TryMap => rows = rows.iter().map(|x| result_v(&try_f(x))).collect(),
+            Step::Unresult | Step::DebugInspect | Step::DebugCount | Step::DebugSample(_) => {}
             Step::TopKPerKey(k) => rows = group(&rows).into_iter().map(|(key, vs)| V::pair(key, Comb::Topk(*k).reference(&vs).unwrap())).collect(),
             Step::Join(kind, right) => {
                 let r = match reference(right) { RefOut::Rows(r) => r, other => return other };
@@ -715,6 +765,7 @@ pub fn gen_rows(rng: &mut Rng, shape: Shape, max_rows: usize) -> Vec<V> {
         Shape::T => gen_value(rng, 0),
         Shape::KV => { let k = if hot && rng.chance(3, 4) { V::I(0) } else { gen_key(rng, nkeys) }; V::pair(k, gen_value(rng, 1)) }
         Shape::KG => { let k = gen_key(rng, nkeys); V::pair(k, V::L((0..rng.below(4)).map(|_| gen_value(rng, 1)).collect())) }
+        Shape::R => gen_value(rng, 0),
     }).collect()
 }
 fn gen_fn(rng: &mut Rng) -> Fn_ {
@@ -753,7 +804,9 @@ pub fn gen_step(rng: &mut Rng, sh: Shape, o: &GenOpts, after_barrier: bool, dept
             14 => Step::MapValuesBatches(rng.below(4), gen_batch(rng, nonlocal)),
             15 => Step::Unkey,
             16 => Step::Swapkv,
-            17 => if rng.chance(1, 2) { Step::Values } else { Step::Keys },
+            17 => match rng.below(4) { 0 => Step::Values, 1 => Step::Keys,
+                2 => match rng.below(3) { 0 => Step::DebugInspect, 1 => Step::DebugCount, _ => Step::DebugSample(rng.below(4)) },
+                _ => match rng.below(4) { 0 => Step::MapSide((0..rng.below(4)).map(|_| rng.range(-2, 3)).collect()), 1 => Step::FilterSide((0..rng.below(4)).map(|_| rng.range(0, 4)).collect()), 2 => Step::TryMap, _ => Step::Unresult } },
             18 => Step::Topair,
             19 | 20 if o.barriers => Step::Gbk,
             21 if o.barriers => match rng.below(3) { 0 => Step::Ungroup, 1 => Step::Glen, _ => Step::Gsum },
